@@ -24,7 +24,8 @@ META = {
                    'equals the state before it and histories of any length behave like the explored ones; (e) the outputs with inputs requiring grad equal those without. '
                    'THREADS are not explored: the checked non-interference premises (calls write only freshly allocated tensors and read only arguments and immutable shared '
                    'state) imply schedule independence provided torch kernels and dict operations are thread-safe; real interleavings are outside this technique.',
-    'bounds': {'quick': {'pool': 15, 'sequences': 'all ordered pairs + triples ending in 4 targets (every 40th) + 13 same-instance sequences (short / other-shaped input first)'}, 'thorough': {'pool': 14, 'sequences': 'all ordered pairs + all triples ending in 4 targets'}},
+    'bounds': {'added_families': ['extra targets dtf_odd (5x7), dtf_odd2 (3x3), dti_planar (planar real/imag storage), dti_planar_b2, swt_j2, d2_odd, d1_b2', 'same instance after an input of another size or precision (20 sequences)', 'uninitialised-memory atoms (torch.empty / new_empty / empty_like)'],
+               'quick': {'pool': 15, 'sequences': 'all ordered pairs + triples ending in 4 targets (every 40th) + 13 same-instance sequences (short / other-shaped input first)'}, 'thorough': {'pool': 14, 'sequences': 'all ordered pairs + all triples ending in 4 targets'}},
     'outside': 'thread interleavings; sequences longer than 3 (covered only through the state-digest induction step); CUDA',
     'assumptions': ['real-arithmetic semantics', 'state reachable only through module globals, function attributes, class attributes and module buffers'],
 }
